@@ -212,6 +212,23 @@ void* gc_alloc(size_t size, GCObjectType type) {
     
     /* Allocate space for header + object */
     size_t total_size = sizeof(GCHeader) + size;
+    
+    /* Check if this allocation should trigger a collection. It runs BEFORE
+     * the new object is linked in: the caller has not initialised the object
+     * yet, and the collector must not walk it.
+     * Use hysteresis: only collect if we've allocated at least 1MB MORE
+     * since the last collection. This prevents collecting on every allocation
+     * when memory usage hovers around the threshold.
+     */
+    size_t usage_after = gc_state.stats.current_usage + total_size;
+    if (usage_after > gc_state.threshold &&
+        usage_after > gc_state.last_collection_usage + (1024 * 1024)) {
+        if (gc_state.cycle_detection_enabled) {
+            gc_state.last_collection_usage = usage_after;
+            gc_collect_cycles();
+        }
+    }
+    
     GCHeader* header = (GCHeader*)malloc(total_size);
     
     if (header == NULL) {
@@ -245,19 +262,6 @@ void* gc_alloc(size_t size, GCObjectType type) {
     gc_state.stats.total_allocated += total_size;
     gc_state.stats.current_usage += total_size;
     gc_state.stats.num_objects++;
-    
-    /* Check if we should trigger collection
-     * Use hysteresis: only collect if we've allocated at least 1MB MORE
-     * since the last collection. This prevents collecting on every allocation
-     * when memory usage hovers around the threshold.
-     */
-    if (gc_state.stats.current_usage > gc_state.threshold &&
-        gc_state.stats.current_usage > gc_state.last_collection_usage + (1024 * 1024)) {
-        if (gc_state.cycle_detection_enabled) {
-            gc_state.last_collection_usage = gc_state.stats.current_usage;
-            gc_collect_cycles();
-        }
-    }
     
     /* Return pointer to object (after header) */
     return ptr;
